@@ -70,6 +70,9 @@ pub struct FeatureSpec {
     pub background: Vec<StepSpec>,
     pub scenarios: Vec<ScenarioSpec>,
     pub rules: Vec<RuleSpec>,
+    /// Built as a custom `Parser` or gherkin's typed builders would: every position left at 0:0.
+    #[serde(default, skip_serializing_if = "std::ops::Not::not")]
+    pub positionless: bool,
 }
 
 #[derive(Clone, Debug, Serialize, Deserialize)]
